@@ -335,6 +335,8 @@ def term_kind(fr, t):
         return fr.ctx.kinds.get(t[1])
     if tag == 'typed':
         return t[1]
+    if tag == 'nd':
+        return 'ndarray'
     if tag in ('arr', 'map') or (tag == 'call' and t[1] in ('array', 'zeros', 'asarray', 'flatten', 'append')):
         return 'ndarray' if not (tag == 'map') else 'list'
     if tag == 'atom':
@@ -369,8 +371,8 @@ def external(fr, dotted, args, kw, extra, n):
     if top == 'numpy':
         ctx.consulted.add('numpy.' + name)
         if name in ('array', 'asarray') and a0 is not None:
-            if a0[0] in ('list', 'tuple', 'map') or True:
-                return ('typed', 'ndarray', a0) if a0[0] in ('param', 'typed', 'dictdel') and term_kind(fr, a0) == 'list' else a0
+            # value preserving; only the python type changes (list -> ndarray), recorded by a transparent wrapper
+            return a0 if term_kind(fr, a0) == 'ndarray' else ('nd', a0)
         if name == 'zeros' or name == 'ones':
             k2 = {k: v for k, v in kw.items() if k != 'dtype'}
             dt = kw.get('dtype')
@@ -499,8 +501,8 @@ def method(fr, recv, recv_node, name, args, kw, extra, n):
     tag = recv[0]
 
     def rebind(new):
-        if isinstance(recv_node, ast.Name):
-            fr.update_name(recv_node.id, new)
+        if fr.is_place(recv_node):
+            fr.place_set(recv_node, new)
         else:
             ctx.event('mutate', name, (recv,) + tuple(args), kw, guard=guard, loops=loops, where=where, extra={'target': ast.unparse(recv_node)})
 
@@ -530,7 +532,8 @@ def method(fr, recv, recv_node, name, args, kw, extra, n):
     if name == 'reset_index':
         return NONE if kw.get('inplace') == TRUE else recv
     if name == 'astype' and a0 is not None:
-        if a0 in (('builtin', 'int'), C('int')) and recv[0] in ('cmp0', 'cmp', 'band', 'bor', 'binv'):
+        if a0 in (('builtin', 'int'), C('int')) and (recv[0] in ('cmp0', 'cmp', 'band', 'bor', 'binv') or
+                                                     (recv[0] == 'call' and recv[1] in ('detect_bursts_dual_threshold', 'isnan', 'isfinite'))):
             return recv      # bool -> 0/1: value preserving for means and sums
         return T.call('astype', (recv, a0))
     if name == 'tolist':
@@ -561,8 +564,8 @@ def method(fr, recv, recv_node, name, args, kw, extra, n):
             ctx.event('mutate', 'pop', (recv, a0), guard=guard, loops=loops, where=where, extra={'target': ast.unparse(recv_node)})
             return default if v is None else v
         ctx.event('mutate', 'pop', (recv, a0), guard=guard, loops=loops, where=where, extra={'target': ast.unparse(recv_node)})
-        if isinstance(recv_node, ast.Name):
-            fr.update_name(recv_node.id, ('dictdel', recv, a0))
+        if fr.is_place(recv_node):
+            fr.place_set(recv_node, ('dictdel', recv, a0))
         return ('dictget', recv, a0, default)
     if name == 'pop' and tag == 'table' and a0 is not None and T.isconst(a0):
         d = dict(recv[1])
